@@ -471,3 +471,324 @@ func mergeTruthTable(p *Prog, r *Report, rule string) {
 	}
 	r.Check(rule, "model.Merge|result", okRet && seeded, p.Pos(fn.Pos()), fmt.Sprintf("returns the accumulators of the second loop: %v; the second loop continues the list of the first: %v", okRet, seeded))
 }
+
+// selectorTruthTable: FilterData.SelectorMatch, per selector field. Conditions
+// are calls of reflect.Value methods; those whose receiver derives from the
+// item's FieldByName are item-side, the others selector-side.
+func selectorTruthTable(p *Prog, r *Report, rule string) {
+	r.Rule(rule, "truth table of FilterData.SelectorMatch per selector field: an unset selector field or one the item type does not have is skipped; an item whose field is unset (or not a pointer) does not match; a different value does not match; an equal value moves on to the next field; only the end of the loop returns true")
+	fn := p.Method("model", "FilterData", "SelectorMatch")
+	if fn == nil {
+		r.Undecided(rule, "anchor:model.FilterData.SelectorMatch", "", "method not found")
+		return
+	}
+	// item side: values derived from FieldByName calls
+	itemSide := map[ssa.Value]bool{}
+	var fieldByName *ssa.Call
+	forEachCall(fn, func(site ssa.CallInstruction) {
+		if c, ok := site.(*ssa.Call); ok {
+			if callee := c.Call.StaticCallee(); callee != nil && fnPkgPath(callee) == "reflect" && callee.Name() == "FieldByName" {
+				fieldByName = c
+				for v := range forwardTaint(c) {
+					itemSide[v] = true
+				}
+			}
+		}
+	})
+	if fieldByName == nil {
+		r.Undecided(rule, "model.FilterData.SelectorMatch|shape", p.Pos(fn.Pos()), "no FieldByName look-up of the item's field found")
+		return
+	}
+	header := innermostLoopHeader(fieldByName.Block())
+	if header == nil {
+		r.Undecided(rule, "model.FilterData.SelectorMatch|shape", p.Pos(fn.Pos()), "the item field look-up is not inside a loop over the selector fields")
+		return
+	}
+	var start *ssa.BasicBlock
+	for _, s := range header.Succs {
+		if s != header && header.Dominates(s) && blockReaches(s, header) {
+			start = s
+		}
+	}
+	if start == nil {
+		r.Undecided(rule, "model.FilterData.SelectorMatch|shape", p.Pos(fn.Pos()), "loop body not found")
+		return
+	}
+	// classify conditions
+	name := func(c ssa.Value) string {
+		switch x := c.(type) {
+		case *ssa.Call:
+			callee := x.Call.StaticCallee()
+			if callee == nil || fnPkgPath(callee) != "reflect" {
+				return ""
+			}
+			side := "sel"
+			if len(x.Call.Args) > 0 && itemSide[x.Call.Args[0]] {
+				side = "item"
+			}
+			switch callee.Name() {
+			case "IsNil":
+				return side + ".nil"
+			case "IsValid":
+				return side + ".valid"
+			}
+		case *ssa.BinOp:
+			// Kind() == / != reflect.Ptr ; itemValue != value
+			if k, ok := constInt(x.Y); ok && k == 22 { // reflect.Ptr
+				if kc, ok := x.X.(*ssa.Call); ok {
+					if callee := kc.Call.StaticCallee(); callee != nil && callee.Name() == "Kind" {
+						side := "sel"
+						if len(kc.Call.Args) > 0 && itemSide[kc.Call.Args[0]] {
+							side = "item"
+						}
+						if x.Op == token.EQL {
+							return side + ".ptr"
+						}
+						return "!" + side + ".ptr"
+					}
+				}
+			}
+			if (x.Op == token.NEQ || x.Op == token.EQL) && types.IsInterface(x.X.Type()) && types.IsInterface(x.Y.Type()) {
+				if itemSide[x.X] != itemSide[x.Y] {
+					if x.Op == token.NEQ {
+						return "differ"
+					}
+					return "!differ"
+				}
+			}
+		}
+		return ""
+	}
+	atoms := []string{"sel.ptr", "sel.nil", "item.valid", "item.ptr", "item.nil", "differ"}
+	want := func(as map[string]bool) string {
+		switch {
+		case !as["sel.ptr"], as["sel.nil"], !as["item.valid"]:
+			return "continue"
+		case !as["item.ptr"], as["item.nil"], as["differ"]:
+			return "return false"
+		}
+		return "continue"
+	}
+	unknown := map[string]bool{}
+	n := 0
+	for m := 0; m < 1<<uint(len(atoms)); m++ {
+		as := map[string]bool{}
+		for i, a := range atoms {
+			as[a] = m&(1<<uint(i)) != 0
+		}
+		got := iterationOutcomes(start, func(c ssa.Value) (bool, bool) {
+			nm := name(c)
+			if nm == "" {
+				unknown[c.Name()] = true
+				return false, false
+			}
+			if strings.HasPrefix(nm, "!") {
+				return true, !as[nm[1:]]
+			}
+			return true, as[nm]
+		})
+		g := strings.Join(sortedKeys(got), "|")
+		w := want(as)
+		if g == w {
+			n++
+			continue
+		}
+		var parts []string
+		for _, a := range atoms {
+			parts = append(parts, fmt.Sprintf("%s=%v", a, as[a]))
+		}
+		r.Fail(rule, "model.FilterData.SelectorMatch|"+strings.Join(parts, ","), p.InstrPos(fieldByName), fmt.Sprintf("does: %s; the selector rules need: %s", g, w))
+	}
+	if len(unknown) > 0 {
+		r.Undecided(rule, "model.FilterData.SelectorMatch|conditions", p.Pos(fn.Pos()), fmt.Sprintf("conditions %v are none of the selector/item presence and equality tests", sortedKeys(unknown)))
+	}
+	r.Check(rule, "model.FilterData.SelectorMatch|table", n > 0, p.InstrPos(fieldByName), fmt.Sprintf("%d of %d assignments of {selector field set, item has the field, item field set, values differ} behave as the selector rules need", n, 1<<uint(len(atoms))))
+	// true only after the loop: every "return true" is outside the loop body
+	okTrue := true
+	for _, b := range fn.Blocks {
+		if ret, ok := b.Instrs[len(b.Instrs)-1].(*ssa.Return); ok && len(ret.Results) == 1 {
+			if v, isC := constBool(ret.Results[0]); isC && v {
+				if start.Dominates(b) {
+					okTrue = false
+				}
+			}
+		}
+	}
+	r.Check(rule, "model.FilterData.SelectorMatch|true-after-all-fields", okTrue, p.Pos(fn.Pos()), "a match is reported only after every selector field was examined")
+}
+
+// variadicElems returns the values stored into the implicit slice of a variadic call argument.
+func variadicElems(v ssa.Value) []ssa.Value {
+	sl, ok := v.(*ssa.Slice)
+	if !ok {
+		return nil
+	}
+	al, ok := sl.X.(*ssa.Alloc)
+	if !ok || al.Referrers() == nil {
+		return nil
+	}
+	type ie struct {
+		idx int64
+		val ssa.Value
+	}
+	var es []ie
+	for _, ref := range *al.Referrers() {
+		ia, ok := ref.(*ssa.IndexAddr)
+		if !ok || ia.Referrers() == nil {
+			continue
+		}
+		k, _ := constInt(ia.Index)
+		for _, r2 := range *ia.Referrers() {
+			if st, ok := r2.(*ssa.Store); ok && st.Addr == ssa.Value(ia) {
+				es = append(es, ie{k, st.Val})
+			}
+		}
+	}
+	sort.Slice(es, func(i, j int) bool { return es[i].idx < es[j].idx })
+	var res []ssa.Value
+	for _, e := range es {
+		res = append(res, e.val)
+	}
+	return res
+}
+
+// hashKeyRule: the identity string Merge keys its items by is built so that
+// different key tuples give different strings: whenever a key part is appended
+// to a non-empty accumulator a separator is appended first.
+func hashKeyRule(p *Prog, r *Report, rule string) {
+	r.Rule(rule, "the identity string of an item separates its key parts: every append of a key part to the accumulator takes an accumulator to which, if it was non-empty, the separator literal was appended first (otherwise (1,12) and (11,2) collide and Merge replaces the wrong item)")
+	// the key function: callee of the look-up index in Merge
+	var keyFn *ssa.Function
+	for _, f := range p.RepoFns("model") {
+		if originName(f) != "Merge" || f.Signature.Recv() != nil {
+			continue
+		}
+		for _, b := range f.Blocks {
+			for _, ins := range b.Instrs {
+				if lk, ok := ins.(*ssa.Lookup); ok && lk.CommaOk {
+					if c, ok := lk.Index.(*ssa.Call); ok && c.Call.StaticCallee() != nil {
+						keyFn = c.Call.StaticCallee()
+					}
+				}
+			}
+		}
+	}
+	if keyFn == nil || keyFn.Blocks == nil {
+		r.Undecided(rule, "anchor:key function of model.Merge", "", "the function computing the look-up key in Merge was not found")
+		return
+	}
+	name := p.StableName(keyFn)
+	var acc *ssa.Phi
+	for _, b := range keyFn.Blocks {
+		isHeader := false
+		for _, pr := range b.Preds {
+			if b.Dominates(pr) {
+				isHeader = true
+			}
+		}
+		if !isHeader {
+			continue
+		}
+		for _, ins := range b.Instrs {
+			if ph, ok := ins.(*ssa.Phi); ok {
+				if bt, ok := ph.Type().Underlying().(*types.Basic); ok && bt.Kind() == types.String {
+					acc = ph
+				}
+			}
+		}
+	}
+	if acc == nil {
+		r.Undecided(rule, name+"|shape", p.Pos(keyFn.Pos()), "no string accumulator in a loop over the key fields")
+		return
+	}
+	isSprintf := func(c *ssa.Call) bool {
+		callee := c.Call.StaticCallee()
+		return callee != nil && fnPkgPath(callee) == "fmt" && callee.Name() == "Sprintf" && len(c.Call.Args) == 2
+	}
+	unbox := func(v ssa.Value) ssa.Value {
+		if mi, ok := v.(*ssa.MakeInterface); ok {
+			return mi.X
+		}
+		return v
+	}
+	literal := func(format string) string {
+		s := format
+		for _, verb := range []string{"%s", "%d", "%v"} {
+			s = strings.ReplaceAll(s, verb, "")
+		}
+		return s
+	}
+	isSeparatorAppend := func(v ssa.Value) (string, bool) {
+		c, ok := v.(*ssa.Call)
+		if !ok || !isSprintf(c) {
+			return "", false
+		}
+		format, ok := constString(c.Call.Args[0])
+		if !ok || literal(format) == "" {
+			return "", false
+		}
+		el := variadicElems(c.Call.Args[1])
+		if len(el) != 1 || unbox(el[0]) != ssa.Value(acc) {
+			return "", false
+		}
+		guarded := false
+		for _, g := range Guards(c.Block()) {
+			if bo, ok := g.Cond.(*ssa.BinOp); ok && g.Val && bo.Op == token.GTR {
+				if lc, ok := bo.X.(*ssa.Call); ok && builtinName(&lc.Call) == "len" && lc.Call.Args[0] == ssa.Value(acc) {
+					if k, ok := constInt(bo.Y); ok && k == 0 {
+						guarded = true
+					}
+				}
+			}
+		}
+		return literal(format), guarded
+	}
+	n := 0
+	seps := map[string]bool{}
+	forEachCall(keyFn, func(site ssa.CallInstruction) {
+		c, ok := site.(*ssa.Call)
+		if !ok || !isSprintf(c) {
+			return
+		}
+		el := variadicElems(c.Call.Args[1])
+		if len(el) < 2 {
+			return
+		}
+		first := unbox(el[0])
+		// a key-part append: the first operand is the accumulator (possibly after the separator)
+		var sepOK bool
+		switch x := first.(type) {
+		case *ssa.Phi:
+			if x == acc {
+				sepOK = false
+				break
+			}
+			hasAcc, hasSep := false, false
+			for _, e := range x.Edges {
+				if e == ssa.Value(acc) {
+					hasAcc = true
+				} else if lit, guarded := isSeparatorAppend(e); guarded {
+					hasSep = true
+					seps[lit] = true
+				}
+			}
+			if !hasAcc && !hasSep {
+				return // not an accumulator append
+			}
+			sepOK = hasAcc && hasSep && len(x.Edges) == 2
+		default:
+			if lit, _ := isSeparatorAppend(first); lit != "" {
+				// separator appended unconditionally: still separates (a leading separator is harmless)
+				seps[lit] = true
+				sepOK = true
+			} else {
+				return
+			}
+		}
+		n++
+		format, _ := constString(c.Call.Args[0])
+		r.Check(rule, fmt.Sprintf("%s|key-part#%d", name, n), sepOK && literal(format) == "", p.InstrPos(c), fmt.Sprintf("key part appended with format %q; the accumulator it extends has the separator appended first whenever it was non-empty: %v", format, sepOK))
+	})
+	r.Check(rule, name+"|one-separator", len(seps) == 1, p.Pos(keyFn.Pos()), fmt.Sprintf("separator literals used: %v", sortedKeys(seps)))
+	r.Floor(rule, "key-part appends in the key function", n, 2)
+}
